@@ -4,7 +4,7 @@ from common import build, log
 
 
 def run_family(chk, invariants, properties, s2i_fields, trace_fields, trace_inv, trace_props=(),
-               hist_k=(3, 4), trace_runs=(4, 40), trace_calls=(150, 400), reset_heavy=False, variant="plain"):
+               hist_k=(3, 4), trace_runs=(4, 40), trace_calls=(150, 400), style="mixed", variant="asan"):
     th = build(variant)
     sources = vm.load_corpus()
     progs = vm.compile_progs(th, sources)
@@ -24,7 +24,7 @@ def run_family(chk, invariants, properties, s2i_fields, trace_fields, trace_inv,
     # 3. I->S: long random histories validated by TheoVMTrace
     runs = trace_runs[1] if chk.thorough else trace_runs[0]
     calls = trace_calls[1] if chk.thorough else trace_calls[0]
-    execs = vm.record_traces(chk, th, sources, calls, runs, chk.seed)
+    execs = vm.record_traces(chk, th, sources, calls, runs, chk.seed, style=style)
     acc = vm.validate_traces(chk, execs, progs, trace_fields, trace_inv, trace_props)
     chk.add("traces_validated_against_impl", acc)
     chk.add("trace_events", sum(len(e) for e in execs))
